@@ -75,7 +75,7 @@ def generate(ctx, wd, bases, name, params):
                   timeout=3000)
     ctx.add_tlc(res, "G:IdentGen.cfg:" + name)
     cases = list(tlc.iter_spool(spool))
-    if params["minfaults"] == 0 and len(cases) != res.distinct - (1 if 0 in params["sel"] else 0):
+    if len(cases) != res.distinct:
         raise tlc.MachineryError("generator %s: %d descriptors read, TLC reports %d states" % (name, len(cases),
                                                                                               res.distinct))
     if not cases:
@@ -314,9 +314,9 @@ def params(ctx):
     quick = ctx.tier == "quick"
     single = {"target": 250 if quick else 0, "bigtarget": 20 if quick else 700, "biglen": 30000, "phase": ctx.seed,
               "alllen": 500 if quick else 2048, "nflip": 3 if quick else 12, "flipk": 12,
-              "nrand": 3 if quick else 20, "minfaults": 0, "maxfaults": 1}
+              "nrand": 3 if quick else 20, "maxfaults": 1}
     pairs = dict(single, target=7 if quick else 40, bigtarget=3 if quick else 8, alllen=0, nflip=1,
-                 flipk=4 if quick else 12, nrand=1, minfaults=2, maxfaults=2)
+                 flipk=4 if quick else 12, nrand=1, maxfaults=2)
     return single, pairs
 
 
